@@ -23,6 +23,11 @@ def plan(prop, tier, seed):
     shards = [{"kind": "dfs", "shard": i, "n": n, "depth": depth, "seed": seed, "prune": tier == "thorough"}
               for i in range(n)]
     shards += [{"kind": "random", "shard": i, "count": nrand, "len": rlen, "seed": seed} for i in range(n)]
+    if prop == "C16":
+        # real sockets, real qserve process, OS-scheduled client threads (O1 only)
+        k = 4 if tier == "quick" else 16
+        shards += [{"kind": "tcp", "shard": i, "seed": seed, "runs": 1 if tier == "quick" else 12,
+                    "workers": 6 if tier == "quick" else 16, "jobs_each": 40 if tier == "quick" else 300} for i in range(k)]
     return shards
 
 
@@ -87,6 +92,19 @@ def run_shard(prop, desc, R):
     from ..mon import qsched
     A = ALPHABETS[prop]
     probes = prop in ("C17", "C18")
+    if desc["kind"] == "tcp":
+        from ..mon import qtcp
+        rnd = random.Random("%s:tcp:%s:%s" % (prop, desc["seed"], desc["shard"]))
+        for _ in range(desc["runs"]):
+            s = rnd.getrandbits(32)
+            findings, obs = qtcp.stress(s, nproducers=3, nworkers=desc["workers"], jobs_each=desc["jobs_each"])
+            for k, v in obs.items():
+                R.count(k, v)
+            R.count("tcp_stress_runs")
+            R.case(h64("tcp", s), obs.get("tcp_rehandouts", 0) > 0, sample={"tcp_seed": s, "obs": obs})
+            for key, what in findings:
+                R.violation(key, what, {"tcp_seed": s, "workers": desc["workers"], "jobs_each": desc["jobs_each"]})
+        return
     if desc["kind"] == "random":
         rnd = random.Random("%s:%s:%s" % (prop, desc["seed"], desc["shard"]))
         for _ in range(desc["count"]):
@@ -141,6 +159,11 @@ def run_shard(prop, desc, R):
 
 
 def replay(prop, case):
+    if "tcp_seed" in case:
+        from ..mon import qtcp
+        findings, obs = qtcp.stress(case["tcp_seed"], nproducers=3, nworkers=case["workers"], jobs_each=case["jobs_each"])
+        print(obs)
+        return [(k, w, None) for k, w in findings]
     from ..mon import qsched
     res = qsched.execute(case["ops"], choices=case.get("choices", ()), probes=case.get("probes", False),
                          lenient=True)
